@@ -108,6 +108,7 @@ inductive Slot where
   | tyvals               -- `, T V` zero or more times (the indices of getelementptr); only as the last slot of a row
   | callee               -- the callee of a call: a local `%x` or a global `@f` (argument: `.val`); followed by the argument list only
   | cargs                -- `(T V, T V, …)` (the arguments of a call; argument: `.tyvals`); only as the last slot of a row
+  | flags (ks : List Bytes)  -- any sequence of the keywords `ks`, each followed by a space (`nuw nsw `, `exact `, fast-math flags, `volatile `); in front of a `tyval` slot or of a `ty` slot followed by `, `
 
 inductive Arg where
   | ty (t : Ty)
@@ -119,6 +120,7 @@ inductive Arg where
   | nums (ks : List Nat)
   | align (a : Option Nat)
   | tyvals (ixs : List (Ty × Operand))
+  | flags (xs : List Nat)      -- positions in the keyword list of the slot, in the order written
   deriving Inhabited
 
 /-- how the type of the result is obtained (asm newXxxInst: from the types WRITTEN in the defining instruction) -/
@@ -139,17 +141,25 @@ def sTo : Bytes := [32, 116, 111, 32]                                    -- " to
 def sPhiOpen : Bytes := [91, 32]                                         -- "[ "
 def sPhiClose : Bytes := [32, 93]                                        -- " ]"
 
+def kOverflow : List Bytes := [[110, 117, 119], [110, 115, 119]]          -- nuw nsw
+def kExact : List Bytes := [[101, 120, 97, 99, 116]]                      -- exact
+def kInbounds : List Bytes := [[105, 110, 98, 111, 117, 110, 100, 115]]     -- inbounds
+def kVolatile : List Bytes := [[118, 111, 108, 97, 116, 105, 108, 101]]   -- volatile
+/-- fast-math flags: nnan ninf nsz arcp contract afn reassoc fast -/
+def kFMF : List Bytes := [[110, 110, 97, 110], [110, 105, 110, 102], [110, 115, 122], [97, 114, 99, 112], [99, 111, 110, 116, 114, 97, 99, 116],
+  [97, 102, 110], [114, 101, 97, 115, 115, 111, 99], [102, 97, 115, 116]]
+
 def rows : List Row := [
-  ⟨true, [97, 100, 100, 32], .void, [.tyval, .lit sComma, .val], .first, false⟩,
-  ⟨true, [115, 117, 98, 32], .void, [.tyval, .lit sComma, .val], .first, false⟩,
-  ⟨true, [109, 117, 108, 32], .void, [.tyval, .lit sComma, .val], .first, false⟩,
-  ⟨true, [117, 100, 105, 118, 32], .void, [.tyval, .lit sComma, .val], .first, false⟩,
-  ⟨true, [115, 100, 105, 118, 32], .void, [.tyval, .lit sComma, .val], .first, false⟩,
+  ⟨true, [97, 100, 100, 32], .void, [.flags kOverflow, .tyval, .lit sComma, .val], .first, false⟩,
+  ⟨true, [115, 117, 98, 32], .void, [.flags kOverflow, .tyval, .lit sComma, .val], .first, false⟩,
+  ⟨true, [109, 117, 108, 32], .void, [.flags kOverflow, .tyval, .lit sComma, .val], .first, false⟩,
+  ⟨true, [117, 100, 105, 118, 32], .void, [.flags kExact, .tyval, .lit sComma, .val], .first, false⟩,
+  ⟨true, [115, 100, 105, 118, 32], .void, [.flags kExact, .tyval, .lit sComma, .val], .first, false⟩,
   ⟨true, [117, 114, 101, 109, 32], .void, [.tyval, .lit sComma, .val], .first, false⟩,
   ⟨true, [115, 114, 101, 109, 32], .void, [.tyval, .lit sComma, .val], .first, false⟩,
-  ⟨true, [115, 104, 108, 32], .void, [.tyval, .lit sComma, .val], .first, false⟩,
-  ⟨true, [108, 115, 104, 114, 32], .void, [.tyval, .lit sComma, .val], .first, false⟩,
-  ⟨true, [97, 115, 104, 114, 32], .void, [.tyval, .lit sComma, .val], .first, false⟩,
+  ⟨true, [115, 104, 108, 32], .void, [.flags kOverflow, .tyval, .lit sComma, .val], .first, false⟩,
+  ⟨true, [108, 115, 104, 114, 32], .void, [.flags kExact, .tyval, .lit sComma, .val], .first, false⟩,
+  ⟨true, [97, 115, 104, 114, 32], .void, [.flags kExact, .tyval, .lit sComma, .val], .first, false⟩,
   ⟨true, [97, 110, 100, 32], .void, [.tyval, .lit sComma, .val], .first, false⟩,
   ⟨true, [111, 114, 32], .void, [.tyval, .lit sComma, .val], .first, false⟩,
   ⟨true, [120, 111, 114, 32], .void, [.tyval, .lit sComma, .val], .first, false⟩,
@@ -163,8 +173,8 @@ def rows : List Row := [
   ⟨true, [105, 99, 109, 112, 32, 115, 103, 101, 32], .void, [.tyval, .lit sComma, .val], .cmp, false⟩,
   ⟨true, [105, 99, 109, 112, 32, 115, 108, 116, 32], .void, [.tyval, .lit sComma, .val], .cmp, false⟩,
   ⟨true, [105, 99, 109, 112, 32, 115, 108, 101, 32], .void, [.tyval, .lit sComma, .val], .cmp, false⟩,
-  ⟨true, [108, 111, 97, 100, 32], .void, [.ty, .lit sComma, .tyval, .align], .loadTy, false⟩,
-  ⟨false, [115, 116, 111, 114, 101, 32], .void, [.tyval, .lit sComma, .tyval, .align], .none, false⟩,
+  ⟨true, [108, 111, 97, 100, 32], .void, [.flags kVolatile, .ty, .lit sComma, .tyval, .align], .loadTy, false⟩,
+  ⟨false, [115, 116, 111, 114, 101, 32], .void, [.flags kVolatile, .tyval, .lit sComma, .tyval, .align], .none, false⟩,
   ⟨true, [115, 101, 108, 101, 99, 116, 32], .void, [.tyval, .lit sComma, .tyval, .lit sComma, .tyval], .second, false⟩,
   ⟨false, [114, 101, 116, 32], .void, [.retv], .none, true⟩,
   ⟨false, [98, 114, 32, 108, 97, 98, 101, 108, 32], .void, [.lab], .none, true⟩,
@@ -186,12 +196,12 @@ def rows : List Row := [
   ⟨true, [112, 104, 105, 32], .void, [.ty, .lit [32], .phis], .loadTy, false⟩,
   ⟨true, [102, 114, 101, 101, 122, 101, 32], .void, [.tyval], .first, false⟩,
   -- 45: fneg; 46–50: fadd fsub fmul fdiv frem; 51–66: fcmp (16 predicates); 67–69: extractelement insertelement shufflevector; 70: alloca
-  ⟨true, [102, 110, 101, 103, 32], .void, [.tyval], .first, false⟩,
-  ⟨true, [102, 97, 100, 100, 32], .void, [.tyval, .lit sComma, .val], .first, false⟩,
-  ⟨true, [102, 115, 117, 98, 32], .void, [.tyval, .lit sComma, .val], .first, false⟩,
-  ⟨true, [102, 109, 117, 108, 32], .void, [.tyval, .lit sComma, .val], .first, false⟩,
-  ⟨true, [102, 100, 105, 118, 32], .void, [.tyval, .lit sComma, .val], .first, false⟩,
-  ⟨true, [102, 114, 101, 109, 32], .void, [.tyval, .lit sComma, .val], .first, false⟩,
+  ⟨true, [102, 110, 101, 103, 32], .void, [.flags kFMF, .tyval], .first, false⟩,
+  ⟨true, [102, 97, 100, 100, 32], .void, [.flags kFMF, .tyval, .lit sComma, .val], .first, false⟩,
+  ⟨true, [102, 115, 117, 98, 32], .void, [.flags kFMF, .tyval, .lit sComma, .val], .first, false⟩,
+  ⟨true, [102, 109, 117, 108, 32], .void, [.flags kFMF, .tyval, .lit sComma, .val], .first, false⟩,
+  ⟨true, [102, 100, 105, 118, 32], .void, [.flags kFMF, .tyval, .lit sComma, .val], .first, false⟩,
+  ⟨true, [102, 114, 101, 109, 32], .void, [.flags kFMF, .tyval, .lit sComma, .val], .first, false⟩,
   ⟨true, [102, 99, 109, 112, 32, 102, 97, 108, 115, 101, 32], .void, [.tyval, .lit sComma, .val], .cmp, false⟩,
   ⟨true, [102, 99, 109, 112, 32, 111, 101, 113, 32], .void, [.tyval, .lit sComma, .val], .cmp, false⟩,
   ⟨true, [102, 99, 109, 112, 32, 111, 103, 116, 32], .void, [.tyval, .lit sComma, .val], .cmp, false⟩,
@@ -216,7 +226,7 @@ def rows : List Row := [
   ⟨true, [101, 120, 116, 114, 97, 99, 116, 118, 97, 108, 117, 101, 32], .void, [.tyval, .nums], .aggElem, false⟩,
   ⟨true, [105, 110, 115, 101, 114, 116, 118, 97, 108, 117, 101, 32], .void, [.tyval, .lit sComma, .tyval, .nums], .first, false⟩,
   -- 73: getelementptr
-  ⟨true, [103, 101, 116, 101, 108, 101, 109, 101, 110, 116, 112, 116, 114, 32], .void, [.ty, .lit sComma, .tyval, .tyvals], .gep, false⟩,
+  ⟨true, [103, 101, 116, 101, 108, 101, 109, 101, 110, 116, 112, 116, 114, 32], .void, [.flags kInbounds, .ty, .lit sComma, .tyval, .tyvals], .gep, false⟩,
   -- 74: call void (no result); 75: call T (a value; `T` is the return type written in the instruction and is not `void`)
   ⟨false, [99, 97, 108, 108, 32, 118, 111, 105, 100, 32], .void, [.callee, .cargs], .none, false⟩,
   ⟨true, [99, 97, 108, 108, 32], .void, [.ty, .lit [32], .callee, .cargs], .loadTy, false⟩
@@ -249,6 +259,11 @@ def calleeTy : Ty := .ptr (.int 8) 0
 /-- `(T V, T V, …)`: the list `, T V…` without its first separator, in parentheses -/
 def cargsString (useHex : Int → Bool) (as : List (Ty × Operand)) : Bytes := [40] ++ (tyvalsString useHex as).drop 2 ++ [41]
 
+/-- the keywords at the given positions, each followed by a space -/
+def flagsString (ks : List Bytes) : List Nat → Bytes
+  | [] => []
+  | i :: xs => ks.getD i [] ++ [32] ++ flagsString ks xs
+
 def printSlots (useHex : Int → Bool) : Ty → List Slot → List Arg → Bytes
   | _, [], _ => []
   | cur, .lit s :: fs, as => s ++ printSlots useHex cur fs as
@@ -264,6 +279,7 @@ def printSlots (useHex : Int → Bool) : Ty → List Slot → List Arg → Bytes
   | cur, .tyvals :: fs, .tyvals ixs :: as => tyvalsString useHex ixs ++ printSlots useHex cur fs as
   | cur, .callee :: fs, .val o :: as => operandString useHex calleeTy o ++ printSlots useHex cur fs as
   | cur, .cargs :: fs, .tyvals ixs :: as => cargsString useHex ixs ++ printSlots useHex cur fs as
+  | cur, .flags ks :: fs, .flags xs :: as => flagsString ks xs ++ printSlots useHex cur fs as
   | _, _, _ => []
 
 /-- `[ V, %b ]` groups separated by `, ` -/
@@ -340,6 +356,22 @@ def readCargs (s : Bytes) : Option (List (Ty × Operand)) :=
     else none
   | _ => none
 
+/-- the first keyword of the list that the text starts with (followed by a space) -/
+def findFlag : Nat → List Bytes → Bytes → Option (Nat × Bytes)
+  | _, [], _ => none
+  | i, k :: ks, s =>
+    match TyParse.stripPrefix (k ++ [32]) s with
+    | some r => some (i, r)
+    | none => findFlag (i + 1) ks s
+
+/-- keywords of the list as long as there are any -/
+def readFlags : Nat → List Bytes → Bytes → List Nat × Bytes
+  | 0, _, s => ([], s)
+  | f + 1, ks, s =>
+    match findFlag 0 ks s with
+    | some (i, r) => let (xs, r') := readFlags f ks r; (i :: xs, r')
+    | none => ([], s)
+
 def readSlots : Ty → List Slot → Bytes → Option (List Arg × Bytes)
   | _, [], s => some ([], s)
   | cur, .lit l :: fs, s =>
@@ -411,6 +443,11 @@ def readSlots : Ty → List Slot → Bytes → Option (List Arg × Bytes)
        (match readSlots cur fs [] with
         | some (as, r') => some (.tyvals ixs :: as, r')
         | none => none)
+     | none => none)
+  | cur, .flags ks :: fs, s =>
+    let (xs, r) := readFlags (s.length + 1) ks s
+    (match readSlots cur fs r with
+     | some (as, r') => some (.flags xs :: as, r')
      | none => none)
   | cur, .align :: fs, s =>
     (match readAlign s with
@@ -645,6 +682,7 @@ def argUses : Arg → List Ident
   | .nums _ => []
   | .align _ => []
   | .tyvals ixs => ixs.flatMap fun p => operandUses p.2
+  | .flags _ => []
 
 def uses (f : Func) : List Ident :=
   f.blocks.flatMap fun b => (instsOf b).flatMap fun i => i.args.flatMap argUses
@@ -828,11 +866,20 @@ def labUses (f : Func) : List Ident :=
   f.blocks.flatMap fun b => (instsOf b).flatMap fun i => i.args.flatMap argLabs
 
 /-- every value-yielding instruction gets a type when its scaffold is created (the vector instructions demand a vector first operand: the parser panics otherwise) -/
+def flagsOf (i : Inst) : List Nat :=
+  match i.args with
+  | .flags xs :: _ => xs
+  | _ => []
+
+/-- rows whose flag is a single optional keyword in the grammar (`exact`, `volatile`: a boolean field of the instruction): a repeated keyword is a syntax error -/
+def boolFlagRows : List Nat := [3, 4, 8, 9, 23, 24, 73]
+
 def typed (f : Func) : Bool :=
   f.blocks.all fun b => (instsOf b).all fun i =>
-    match rows[i.row]? with
-    | some r => !r.hasRes || (defTy i).isSome
-    | none => true
+    (match rows[i.row]? with
+     | some r => !r.hasRes || (defTy i).isSome
+     | none => true) &&
+    (!boolFlagRows.contains i.row || (flagsOf i).length ≤ 1)
 
 /-- the parser on a function definition (asm/local.go): scaffold and AssignIDs (nameless values are numbered, written IDs validated), duplicate
     definitions, undefined uses, label operands that are not blocks (asm/helper.go irBlock); then the operand types -/
@@ -901,6 +948,15 @@ def argOKB : Arg → Bool
   | .nums ks => ks.all fun k => decide (k < 2 ^ 63)
   | .align a => (match a with | some n => decide (n < 2 ^ 63) | none => true)
   | .tyvals ixs => ixs.all fun p => operandOKB p.2
+  | .flags _ => true
+
+/-- the type after a flag list does not start with one of its keywords (no type does; decidable instance by instance) -/
+def flagTyOK (ks : List Bytes) (t : Ty) : Bool :=
+  ks.all fun k => !(TyParse.stripPrefix (k ++ [32]) (tyString t ++ [32])).isSome
+
+/-- the same for a type that is followed by `, ` -/
+def flagTyCommaOK (ks : List Bytes) (t : Ty) : Bool :=
+  ks.all fun k => !(TyParse.stripPrefix (k ++ [32]) (tyString t ++ sComma)).isSome
 
 def matchesB : List Slot → List Arg → Bool
   | [], [] => true
@@ -916,6 +972,8 @@ def matchesB : List Slot → List Arg → Bool
   | .tyvals :: fs, .tyvals _ :: as => matchesB fs as
   | .callee :: fs, .val o :: as => (match o with | .const _ => false | _ => true) && matchesB fs as
   | .cargs :: fs, .tyvals _ :: as => matchesB fs as
+  | .flags ks :: .tyval :: fs, .flags xs :: .tyval t _ :: as => xs.all (fun i => decide (i < ks.length)) && flagTyOK ks t && matchesB fs as
+  | .flags ks :: .ty :: fs, .flags xs :: .ty t :: as => xs.all (fun i => decide (i < ks.length)) && flagTyCommaOK ks t && matchesB fs as
   | _, _ => false
 
 def sVoidSp : Bytes := [118, 111, 105, 100, 32]        -- "void "
